@@ -3,10 +3,13 @@ package mon
 import (
 	"fmt"
 	"math/rand/v2"
+	"os"
+	"path/filepath"
 	"sort"
 	"strconv"
 	"strings"
 	"sync"
+	"syscall"
 	"unicode"
 
 	"verif/harness/core"
@@ -965,8 +968,75 @@ func c20Long(r *rand.Rand) string {
 	return strings.TrimSpace(b.String()) + "=end"
 }
 
+// otherFilesystemDir makes a scratch directory on a file system different from the one the sandboxes live on
+// ("" if this machine offers none). The caller removes it.
+func otherFilesystemDir(c *core.Ctx) string {
+	var here syscall.Stat_t
+	if syscall.Stat(c.Scratch, &here) != nil {
+		return ""
+	}
+	for _, cand := range []string{os.TempDir(), "/var/tmp", "/tmp", "/run", "/dev/shm"} {
+		var st syscall.Stat_t
+		if syscall.Stat(cand, &st) != nil || st.Dev == here.Dev {
+			continue
+		}
+		if d, err := os.MkdirTemp(cand, "verif-c20-home-"); err == nil {
+			return d
+		}
+	}
+	return ""
+}
+
+// c20HomeElsewhere: the home directory (global settings) on another file system than the repository. Nothing in
+// the statement depends on where the two files live.
+func c20HomeElsewhere(c *core.Ctx) {
+	home := otherFilesystemDir(c)
+	if home == "" {
+		c.Count("C20.home-on-other-filesystem-unavailable")
+		return
+	}
+	defer os.RemoveAll(home)
+	c.RunHistoriesAt(5_000_000, 2, func() []core.Monitor { return nil }, func(w *core.World) {
+		h := filepath.Join(home, fmt.Sprint("h", w.Hist))
+		os.MkdirAll(h, 0o777)
+		w.Env = map[string]string{"HOME": h}
+		trig := "home-on-another-filesystem"
+		w.Goit("init")
+		name, email := "Global G", "g@example.com"
+		sets := [][]string{{"config", "--global", "user.name", name}, {"config", "--global", "user.email", email}, {"config", "--global", "user.name", name}}
+		if w.Hist%2 == 1 {
+			sets = append(sets, []string{"config", "user.email", "local@example.com"})
+			email = "local@example.com"
+		}
+		for _, a := range sets {
+			c.Oracle("C20.home-elsewhere")
+			if st := w.Goit(a...); st.Exit != 0 {
+				w.Fail("C20.home-elsewhere", "valid-value-refused", trig, "%s exits %d with the home directory on another file system than the repository: %s", st.String(), st.Exit, clipS(firstLine(st.Stdout+st.Stderr), 200))
+				return
+			}
+		}
+		if b, err := os.ReadFile(filepath.Join(h, ".goitconfig")); err != nil || !strings.Contains(string(b), "name = "+name) {
+			w.Fail("C20.home-elsewhere", "global-file-differs", trig, "after the global writes $HOME/.goitconfig holds %q (%v)", clipS(string(b), 120), err)
+		}
+		if left, _ := filepath.Glob(filepath.Join(h, "*tmp*")); len(left) > 0 {
+			w.Fail("C20.home-elsewhere", "temporary-file-left", trig, "temporary files left in the home directory: %v", left)
+		}
+		w.Write("f.txt", []byte("x\n"))
+		w.Goit("add", "f.txt")
+		c.Oracle("C20.home-elsewhere")
+		if st := w.Goit("commit", "-m", "with the global identity"); st.Exit != 0 {
+			w.Fail("C20.home-elsewhere", "commit-refused-with-identity", trig, "%s exits %d although name and e-mail are configured: %s", st.String(), st.Exit, clipS(firstLine(st.Stdout+st.Stderr), 200))
+			return
+		}
+		if st := w.Goit("log"); !strings.Contains(st.Stdout, "Author: "+name+" <"+email+">") {
+			w.Fail("C20.home-elsewhere", "identity-differs", trig, "log shows %q, configured: %s <%s>", clipS(st.Stdout, 160), name, email)
+		}
+	})
+}
+
 func runC20(c *core.Ctx) {
 	RunIn(c, "", 8, 2048)
+	c20HomeElsewhere(c)
 	n := c.Pick(500, 4000)
 	c.RunHistories(n, Registry["C20"].Mons, func(w *core.World) {
 		k := NewWalker(w, gen.NameOpts{MaxDepth: 1, N: 3}, nil)
